@@ -55,6 +55,7 @@ def results(args):
             inds.append(ind)
             prob.individuals.append(ind)
         tags = [i.population_id for i in inds]
+        snap = [list(x.vector) + list(x.costs) for x in inds]
         ctx.output('tags', tags)
         maxtag = max(tags)
         lastpop = [x for x in inds if x.population_id == maxtag]
@@ -86,6 +87,14 @@ def results(args):
                     _pairs(ctx, 'parameter-on-goal-tag%d' % tag, gv2, pv2, [(x.costs[0], x.vector[1]) for x in tt], False)
                     a, b = res.parameter_on_parameter('x1', 'x0', population_id=tag)
                     _pairs(ctx, 'parameter-on-parameter-tag%d' % tag, a, b, [(x.vector[1], x.vector[0]) for x in tt], False)
+        # multi-step: a query must not disturb what later queries return -- after everything above, population queries
+        # still list the individuals of a tag in RECORDING order and every record still carries its own data
+        ctx.check('queries-leave-the-record-untouched(default-population)', [x.id for x in res.population()] != [x.id for x in lastpop])
+        for t in (0, 1, 2):
+            ctx.check('queries-leave-the-record-untouched(population-by-tag-in-recording-order)',
+                      [x.id for x in res.population(t)] != [x.id for x in inds if x.population_id == t])
+        ctx.check('queries-leave-the-record-untouched(values)',
+                  Or(*[_neq(list(x.vector) + list(x.costs), s0) for x, s0 in zip(inds, snap)]))
     return body
 
 
